@@ -341,11 +341,36 @@ def restore_hook_factory(results, every_step=False, old_commits=False, restore_v
             # symlinks created by xvc are absolute: they still point into the original cache, which holds the same bytes
             for k, p in enumerate(todo):
                 ap = probe.path(p)
-                damage = 'delete' if k % 2 == 0 else 'overwrite'
+                want = com.cur[p]
+                # kinds of damage (the property: "deleting or damaging the workspace copy"):
+                #   delete | overwrite with other bytes | change only the line endings of a text file (the text digest
+                #   does not see it) | other bytes of the same size with the old mtime (size+mtime short-cut does not see it)
+                modes = ['delete', 'overwrite', 'same-size-same-mtime']
+                if (b'\n' in want or b'\r' in want) and 0 not in want[:8000]: modes.append('line-endings')
+                damage = modes[(k + st['i']) % len(modes)]
+                old_stat = None
+                try:
+                    old_stat = os.stat(ap)
+                except OSError:
+                    pass
+                if damage == 'same-size-same-mtime' and (old_stat is None or len(want) == 0 or not os.path.isfile(ap) or os.path.islink(ap)
+                                                         or os.stat(ap).st_nlink != 1):
+                    damage = 'overwrite'
                 if os.path.lexists(ap): os.unlink(ap)
                 args = rh.Runner.cfg_args(None, cfg) + ['file', 'recheck']
-                if damage == 'overwrite':
-                    open(ap, 'wb').write(b'damaged-by-harness'); args.append('--force')
+                if damage != 'delete':
+                    os.makedirs(os.path.dirname(ap), exist_ok=True)      # e.g. a destination of `copy --no-recheck` in a new directory
+                    if damage == 'overwrite':
+                        data = b'damaged-by-harness'
+                    elif damage == 'line-endings':
+                        data = want.replace(b'\r\n', b'\n').replace(b'\n', b'\r\n') if b'\r\n' not in want else want.replace(b'\r\n', b'\n')
+                        if data == want: data = want + b'\r'
+                    else:
+                        data = bytes((x ^ 0x55) for x in want)
+                    open(ap, 'wb').write(data); args.append('--force')
+                    if damage == 'same-size-same-mtime':
+                        os.utime(ap, ns=(old_stat.st_atime_ns, old_stat.st_mtime_ns))
+                results[f'damage:{damage}'] = results.get(f'damage:{damage}', 0) + 1
                 if k % 3 == 0: args.append('--no-parallel')
                 rc, out, err = probe.x(*(args + [p]))
                 got = None
@@ -353,7 +378,6 @@ def restore_hook_factory(results, every_step=False, old_commits=False, restore_v
                     got = open(ap, 'rb').read()
                 except OSError:
                     pass
-                want = com.cur[p]
                 results['restores'] = results.get('restores', 0) + 1
                 if got != want:
                     coll = got is not None and hashref.strip_crlf(got) == hashref.strip_crlf(want)
@@ -372,7 +396,7 @@ def restore_hook_factory(results, every_step=False, old_commits=False, restore_v
                         if not (KIND_OF[r['method']] == 'symlink' and o2.ws.get(p, {}).get('kind') == 'symlink'):
                             results.setdefault('failures', []).append((
                                 f"after step {st['i']}: {p} restored as '{kind}' but the recorded method is {r['method']}", {'kind': 'restored-with-other-method'}))
-                r2 = Obs(probe).recs.get(p) if damage == 'overwrite' else None
+                r2 = Obs(probe).recs.get(p) if damage != 'delete' else None
                 if r2 is not None and r2['cur'] != post.recs[p]['cur']:
                     results.setdefault('failures', []).append((
                         f"after step {st['i']}: `recheck --force {p}` changed the recorded version", {'kind': 'force-changed-version'}))
@@ -552,9 +576,9 @@ def run_property(chk, pid, oracles, want=('main',), restore=None, nq=280, nt=300
         for o in oracles:
             fails += o(steps, cfg, h)
         fails += results_by_item.get(name, {}).get('failures', [])
-        for k in ('restores', 'old_commit_restores'):
-            if results_by_item.get(name, {}).get(k):
-                chk.distribution[k] = chk.distribution.get(k, 0) + results_by_item[name][k]
+        for k, v in results_by_item.get(name, {}).items():
+            if k in ('restores', 'old_commit_restores') or k.startswith('damage:'):
+                chk.distribution[k] = chk.distribution.get(k, 0) + v
         seen = set()
         for msg, sig in fails:
             key = json.dumps(sig, sort_keys=True)
